@@ -23,7 +23,8 @@ operands as machine words, then the numeric operands.
   `(op, [f], [var])` and mean `subset op (var_to_level var) f`; `Restrict` is keyed by
   `(Restrict, [f, vars], [num_levels])` and means `restrict num_levels f vars (level of f)`,
   whatever the *current* number of levels is.
-* `CacheOK env s c`: every entry maps its key to an edge denoting the specified result.
+* `CacheOK env s c`: every entry maps its key to an edge denoting the specified result (and the
+  operands of an `Ite` entry are in normal form, which is what lets it survive `add_vars`).
 * `setOpS p op` (`unionS`, `intsecS`, `diffS`, `symmDiffS`), `subsetS p op var var_level`.
 * `Post env s T R`: invariant kept, store only extended, result denotes `T`, and store and result
   are exactly `intern s T` (independent of cache and policy).
@@ -381,17 +382,20 @@ theorem DenotesLZ.three {s : Store} {e1 e2 e3 : ZEdge} {t1 t2 t3 : ZDD} (h1 : De
 
 /-- the entry `k ↦ r` is sound in store `s`: `k` is the encoding of a key whose edge operands
 denote trees, and `r` is an edge denoting the result of the operator on them (and on the numeric
-operands) -/
+operands). For an `Ite` entry — the only kind whose meaning refers to the current number of
+levels — the operands are moreover diagrams in normal form for that number of levels (what every
+handle of the real manager is); this is what makes such an entry survive `add_vars`. -/
 def EntryOK (env : Env) (s : Store) (k : Key) (r : Bdd.Refine.Edge) : Prop :=
   ∃ zk ts T, k = encKey zk ∧ DenotesLZ s zk.operands ts ∧
-    specZ env zk.op ts zk.nums = some T ∧ DenotesZ s (decE r) T
+    specZ env zk.op ts zk.nums = some T ∧ DenotesZ s (decE r) T ∧
+    (zk.op = .ite → ∀ t, t ∈ ts → NF env.numLevels 0 t)
 
 def CacheOK (env : Env) (s : Store) (c : Cache) : Prop := ∀ k r, (k, r) ∈ c → EntryOK env s k r
 
 theorem EntryOK.mono {env : Env} {s s' : Store} {k : Key} {r : Bdd.Refine.Edge}
     (h : EntryOK env s k r) (hle : s.Le s') : EntryOK env s' k r := by
-  obtain ⟨zk, ts, T, h0, h1, h2, h3⟩ := h
-  exact ⟨zk, ts, T, h0, h1.mono hle, h2, h3.mono hle⟩
+  obtain ⟨zk, ts, T, h0, h1, h2, h3, h4⟩ := h
+  exact ⟨zk, ts, T, h0, h1.mono hle, h2, h3.mono hle, h4⟩
 
 theorem CacheOK.mono {env : Env} {s s' : Store} {c : Cache} (h : CacheOK env s c)
     (hle : s.Le s') : CacheOK env s' c := fun k r hm => (h k r hm).mono hle
@@ -401,7 +405,7 @@ operands -/
 theorem EntryOK.hit {env : Env} {s : Store} {zk : ZKey} {r : Bdd.Refine.Edge} {ts : List ZDD}
     {T : ZDD} (h : EntryOK env s (encKey zk) r) (hd : DenotesLZ s zk.operands ts)
     (hs : specZ env zk.op ts zk.nums = some T) : DenotesZ s (decE r) T := by
-  obtain ⟨zk', ts', T', h0, h1, h2, h3⟩ := h
+  obtain ⟨zk', ts', T', h0, h1, h2, h3, _⟩ := h
   have := encKey_inj h0
   subst this
   have := DenotesLZ.functional h1 hd
@@ -541,18 +545,24 @@ theorem post_mkS {env : Env} {s : Store} {R1 R0 : St × ZEdge} {T1 T0 : ZDD}
   · simp only [hT, if_false, intern]
     rw [← e1s, ← e1e, ← e0s, ← e0e]
 
+/-- the key `key` means the tree `T` in store `s` (and, for `Ite`, its operands are in normal
+form) -/
+def KeyMeans (env : Env) (s : Store) (key : ZKey) (T : ZDD) : Prop :=
+  ∃ ts, DenotesLZ s key.operands ts ∧ specZ env key.op ts key.nums = some T ∧
+    (key.op = .ite → ∀ t, t ∈ ts → NF env.numLevels 0 t)
+
 /-- the result is entered into the cache under a key that means it -/
 theorem post_addZ {p : Policy} (pok : p.OK) {env : Env} {s : Store} {R : St × ZEdge} {T : ZDD}
-    (h : Post env s T R) (key : ZKey)
-    (hkey : ∃ ts, DenotesLZ s key.operands ts ∧ specZ env key.op ts key.nums = some T) :
+    (h : Post env s T R) (key : ZKey) (hkey : KeyMeans env s key T) :
     Post env s T (addZ p R.1 key R.2) := by
   refine ⟨⟨h.inv.1, ?_⟩, h.le, h.den, h.canon⟩
-  obtain ⟨ts, hd, hs⟩ := hkey
-  exact CacheOK.add pok h.inv.2 ⟨key, ts, T, rfl, hd.mono h.le, hs, by rw [decE_encE]; exact h.den⟩ _
+  obtain ⟨ts, hd, hs, hnf⟩ := hkey
+  exact CacheOK.add pok h.inv.2
+    ⟨key, ts, T, rfl, hd.mono h.le, hs, by rw [decE_encE]; exact h.den, hnf⟩ _
 
 theorem post_finishZ {p : Policy} (pok : p.OK) {env : Env} {s : Store} {R1 R0 : St × ZEdge}
     {T1 T0 : ZDD} (h1 : Post env s T1 R1) (h0 : Post env R1.1.store T0 R0) (key : ZKey) (l : Nat)
-    (hkey : ∃ ts, DenotesLZ s key.operands ts ∧ specZ env key.op ts key.nums = some (mk l T1 T0)) :
+    (hkey : KeyMeans env s key (mk l T1 T0)) :
     Post env s (mk l T1 T0) (finishZ p R0.1 key l R1.2 R0.2) :=
   post_addZ pok (post_mkS h1 h0 l) key hkey
 
@@ -652,9 +662,8 @@ theorem setBody_post {p : Policy} (pok : p.OK) (env : Env) (op : SetOp) (fuel : 
     (hnt : terminalT op a b = none) :
     Post env st.store (setOp op a b) (setBody p op rec st f g) := by
   obtain ⟨hab, ha, hb⟩ := terminalT_none hnt
-  have hkd : ∃ ts, DenotesLZ st.store (ZKey.mk (setTag op) [f, g] []).operands ts ∧
-      specZ env (ZKey.mk (setTag op) [f, g] []).op ts (ZKey.mk (setTag op) [f, g] []).nums =
-        some (setOp op a b) := ⟨_, DenotesLZ.two hf hg, specZ_setTag env op a b⟩
+  have hkd : KeyMeans env st.store ⟨setTag op, [f, g], []⟩ (setOp op a b) :=
+    ⟨_, DenotesLZ.two hf hg, specZ_setTag env op a b, fun h => by cases op <;> cases h⟩
   unfold setBody
   split
   · -- cache hit
@@ -904,7 +913,7 @@ theorem subsetS_spec {p : Policy} (pok : p.OK) (env : Env) (op : SubsetOp) (var 
               rw [specZ_subsetTag]; simp only [subset, *, if_true]))
         · have p1 := ih st.tickd eh th hinv.tickd hh (by omega)
           have p0 := ih _ el tl p1.inv (hl.mono p1.le) (by omega)
-          refine post_finishZ pok p1 p0 _ l ⟨_, DenotesLZ.one hdf, ?_⟩
+          refine post_finishZ pok p1 p0 _ l ⟨_, DenotesLZ.one hdf, ?_, fun h => by cases op <;> cases h⟩
           rw [specZ_subsetTag]; simp only [subset, *, if_true]
       · split
         · cases op <;> simp only
